@@ -21,6 +21,8 @@ Definition resolution_order : list rsrc := [].
 Definition inspect_order : list rsrc := [].
 Definition probe_sweep_publishes := false.
 Definition gate_before_resolve := false.
+Definition two_element_list_is_range := true.
+Definition combinatorial_sorts_names := false.
 Definition reserved_names : list string := [].
 Definition translation_failed := true.
 """
@@ -90,6 +92,17 @@ def translate():
     ssrc = ast.unparse(single)
     if ssrc.find("self._get_processor_parameters") > ssrc.find("self.processor.process(data, **parameters)"):
         raise TranslationError("_DataNode: parameters are not resolved before the processor runs")
+    ptree, p3 = parse("semantiva/pipeline/node_preprocess.py")
+    conv = find_def(ptree, "_convert_var_specs", ast.FunctionDef)
+    csrc = ast.unparse(conv)
+    if "SequenceSpec(spec)" not in csrc or "FromContext(key)" not in csrc or "SequenceSpec(spec['values'])" not in csrc:
+        raise TranslationError("_convert_var_specs: unexpected shape")
+    two_is_range = "len(spec) == 2 and all((isinstance(x, (int, float)) for x in spec))" in csrc and "steps=10" in csrc
+    stree, p4 = parse("semantiva/data_processors/parametric_sweep_factory.py")
+    it = ast.unparse(find_def(stree, "_iterate_sweep", ast.FunctionDef))
+    comb_sorted = "var_names = sorted(sequences.keys())" in it and "itertools.product(*var_seqs)" in it
+    if "if mode == 'by_position':" not in it:
+        raise TranslationError("_iterate_sweep: mode test not found")
     text = """(* GENERATED from semantiva/pipeline/_param_resolution.py and pipeline/nodes/nodes.py — do not edit *)
 From Coq Require Import List String Bool. Import ListNotations.
 Open Scope string_scope.
@@ -99,6 +112,9 @@ Definition inspect_order : list rsrc := %s.
 Definition reserved_names : list string := %s.
 Definition probe_sweep_publishes : bool := %s.
 Definition gate_before_resolve : bool := %s.
+Definition two_element_list_is_range : bool := %s.
+Definition combinatorial_sorts_names : bool := %s.
 Definition translation_failed := false.
-""" % (cq_list(order), cq_list(iorder), cq_list(reserved, cq_str), cq_bool(publishes), cq_bool(gate_first))
-    return text, [p1, p2]
+""" % (cq_list(order), cq_list(iorder), cq_list(reserved, cq_str), cq_bool(publishes), cq_bool(gate_first),
+       cq_bool(two_is_range), cq_bool(comb_sorted))
+    return text, [p1, p2, p3, p4]
